@@ -60,6 +60,7 @@ func runC10(w *World, r *Report) {
 	r.Rule("errpath", "a read failure is published once and never hands over a partial frame", 1)
 	r.Rule("owns-memory", "nothing the parser returns aliases the pool buffer (the C12 may-alias rule, re-decided here)", 100)
 	r.Rule("roles", "one reader, one kind of parser, fixed senders/receivers of the pool and Inbound channels", 6)
+	r.Rule("pool-disjoint", "every buffer put into the pool has backing storage of its own", 1)
 	so, miss := w.streamObjs()
 	if miss != "" {
 		r.Fail(VViolation, "roles", "util.MessageStream", "", "-", miss)
@@ -543,6 +544,8 @@ func runC10(w *World, r *Report) {
 	} else {
 		r.Fail(VViolation, "roles", "util.MessageStream", "one-reader", ipos, fmt.Sprintf("%d Read call sites and %d go statements starting the reader; expected 1 and 1", nRead, nGo))
 	}
+	// ---------------------------------------------------------------- pool buffers own disjoint storage
+	poolDisjoint(w, r, so)
 	// ---------------------------------------------------------------- owns-memory (C12's rule, as part of this property's statement)
 	r2 := NewReport(r.Prop, r.Tier)
 	runC12(w, r2)
@@ -673,4 +676,107 @@ func streamParseHandoff(w *World, r *Report, so *streamObjs) {
 		}
 	}
 
+}
+
+// poolDisjoint: every buffer that enters the pool for the first time (a send on the empty pool of a value that
+// was not received from the full pool) is built on storage of its own: bytes.NewBuffer over a make() evaluated
+// for that buffer, over nil, or over a slice with an explicit capacity limit; new(bytes.Buffer) / &bytes.Buffer{}.
+// A window of a shared slab without a capacity limit lets a frame longer than the window grow into the
+// neighbouring buffer, which may hold a frame that is still waiting to be parsed.
+func poolDisjoint(w *World, r *Report, so *streamObjs) {
+	n := 0
+	for _, key := range w.sortedFuncKeys() {
+		fi := w.Funcs[key]
+		info := fi.Pkg.TypesInfo
+		if fi.Decl.Body == nil {
+			continue
+		}
+		ast.Inspect(fi.Decl.Body, func(nd ast.Node) bool {
+			ss, ok := nd.(*ast.SendStmt)
+			if !ok || fieldOf(info, ss.Chan) != so.poolEmpty {
+				return true
+			}
+			var classify func(e ast.Expr, depth int) (string, string)
+			classify = func(e ast.Expr, depth int) (verdict, why string) {
+				e = unparen(e)
+				switch x := e.(type) {
+				case *ast.CallExpr:
+					if id, ok := unparen(x.Fun).(*ast.Ident); ok && id.Name == "new" {
+						return "ok", "new(bytes.Buffer)"
+					}
+					if fn, ok := typeutil.Callee(info, x).(*types.Func); ok && fn.Pkg() != nil && fn.Pkg().Path() == "bytes" && (fn.Name() == "NewBuffer" || fn.Name() == "NewBufferString") && len(x.Args) == 1 {
+						a := unparen(x.Args[0])
+						switch y := a.(type) {
+						case *ast.CallExpr:
+							if id, ok := unparen(y.Fun).(*ast.Ident); ok && id.Name == "make" {
+								return "ok", "bytes.NewBuffer over a make() evaluated for this buffer"
+							}
+						case *ast.Ident:
+							if y.Name == "nil" {
+								return "ok", "bytes.NewBuffer(nil)"
+							}
+						case *ast.SliceExpr:
+							if y.Slice3 && y.Max != nil {
+								return "ok", "window of a slab with an explicit capacity limit"
+							}
+							return "bad", "the buffer is built on " + types.ExprString(y) + ", a window of shared storage without a capacity limit: a frame longer than the window grows into the next buffer's bytes"
+						}
+						return "bad", "the buffer is built on " + types.ExprString(a) + ", storage that is not allocated for this buffer alone"
+					}
+					return "skip", ""
+				case *ast.UnaryExpr:
+					if x.Op == token.AND {
+						if _, ok := unparen(x.X).(*ast.CompositeLit); ok {
+							return "ok", "&bytes.Buffer{}"
+						}
+					}
+				case *ast.Ident:
+					if depth > 2 {
+						return "skip", ""
+					}
+					o := info.Uses[x]
+					if o == nil {
+						return "skip", ""
+					}
+					// the definitions of the variable in this function
+					verdict = "skip"
+					ast.Inspect(fi.Decl.Body, func(m ast.Node) bool {
+						as, ok := m.(*ast.AssignStmt)
+						if !ok {
+							return true
+						}
+						for i, l := range as.Lhs {
+							if identObj(info, l) != o || i >= len(as.Rhs) {
+								continue
+							}
+							rhs := unparen(as.Rhs[i])
+							if u, ok := rhs.(*ast.UnaryExpr); ok && u.Op == token.ARROW {
+								continue // received from a pool channel: recycling, decided by the hand-off rule
+							}
+							v, y := classify(rhs, depth+1)
+							if v == "bad" || (v == "ok" && verdict != "bad") {
+								verdict, why = v, y
+							}
+						}
+						return true
+					})
+					return verdict, why
+				}
+				return "skip", ""
+			}
+			v, why := classify(ss.Value, 0)
+			switch v {
+			case "ok":
+				n++
+				r.OK("pool-disjoint", fi.Key, types.ExprString(ss.Value), w.Pos(ss.Pos()), why, true)
+			case "bad":
+				n++
+				r.Fail(VViolation, "pool-disjoint", fi.Key, types.ExprString(ss.Value), w.Pos(ss.Pos()), why)
+			}
+			return true
+		})
+	}
+	if n == 0 {
+		r.Fail(VViolation, "pool-disjoint", "util.BufferPool", "", "-", "no site that fills the buffer pool was found (anchor of the rule cannot be resolved)")
+	}
 }
